@@ -30,6 +30,7 @@ import XotModel.Lemmas.TraceInv
 import XotModel.Lemmas.RepairDoc
 import XotModel.Lemmas.RepairFuel
 import XotModel.Lemmas.RepairKeepTop
+import XotModel.Lemmas.RepairValid
 
 namespace XotModel.Props
 open XotModel
@@ -783,6 +784,54 @@ example :
         (nodesBelow [basePrefixes] E').map (fun x => lookupFrames x.1 0) = [some 0, some 0, some 0] ∧
         (nodesBelow [basePrefixes] E').map (fun x => lookupFrames x.1 2) = [none, none, some 3])
       | _ => false) = true := by decide
+
+/-! ### Document-level writability from structural validity -/
+
+/-- WRITABLE for a document or fragment, the leaf hypothesis of `C10_repair_document_writable`
+    discharged by `KindsOk` (Model/Valid: text, comment and PI nodes have no children, a document
+    node is never a child) at the document node and its children. -/
+theorem C10_repair_document_writable_kinds (env : Env) (hok : EnvOk env) (t : Tree) (path : Path) (doc : Tree)
+    (hat : t.at? path = some doc) (hdoc : doc.value.isDocument = true)
+    (hu : ∀ (i : Nat) (k : Tree), doc.kids[i]? = some k → k.value.isElement = true → UniqueBelow k)
+    (hkinds : doc.Forall KindsOk)
+    (env' : Env) (t' : Tree) (h : createMissingPrefixes env t path = .ok (env', t')) :
+    namesWritable env' t' path = some true :=
+  C10_repair_document_writable env hok t path doc hat hdoc hu (leaves_of_kindsOk doc hkinds) env' t' h
+
+/-- For every structurally valid document (or fragment) with an element child, and interning tables
+    with the empty prefix at id 0 — no other hypothesis: the call on the root SUCCEEDS, changes
+    namespace nodes only, makes every name of the document writable, and is the identity when
+    repeated. -/
+theorem C10_repair_document_valid (env : Env) (hok : EnvOk env) (t : Tree) (hv : StructValid t)
+    (hel : elementKidIndices t.kids ≠ []) :
+    ∃ env' t', createMissingPrefixes env t [] = .ok (env', t') ∧
+      stripNs t' = stripNs t ∧ env'.names = env.names ∧ env'.namespaces = env.namespaces ∧
+      namesWritable env' t' [] = some true ∧
+      createMissingPrefixes env' t' [] = .ok (env', t') := by
+  have hub := uniqueBelow_of_uniqueKids t hv.2.2.2
+  have hu : ∀ (i : Nat) (k : Tree), t.kids[i]? = some k → k.value.isElement = true → UniqueBelow k := by
+    intro i k hk _
+    cases t with
+    | node v ks => exact hub.kid hk
+  obtain ⟨env', t', h, f1, f2, f3, f4⟩ := C10_repair_document_total env hok t [] t rfl hv.1 hel hu
+  exact ⟨env', t', h, f1, f2, f3,
+    C10_repair_document_writable_kinds env hok t [] t rfl hv.1 hu hv.2.2.1 env' t' h, f4⟩
+
+/-- The leaf hypothesis cannot simply be dropped in the model: a (structurally invalid) text child of
+    the document holding an element in an undeclared namespace is not repaired — only element
+    children of the document are. -/
+example :
+    let env : Env := ⟨[[], ['x'], ['u']], [[], ['x','m','l']], [(['a'], 0), (['e'], 2)]⟩
+    let t : Tree := .node .document [.node (.text ['x']) [.node (.element 1) []], .node (.element 0) []]
+    (match createMissingPrefixes env t [] with
+      | .ok (env', t') => namesWritable env' t' []
+      | _ => none) = some false := by decide
+/-- Non-vacuity of `C10_repair_document_valid`: `<a/>` with `a` in an undeclared namespace. -/
+example : StructValid (.node .document [.node (.element 0) []]) ∧
+    elementKidIndices (Tree.node .document [.node (.element 0) []]).kids ≠ [] := by
+  refine ⟨⟨rfl, ?_, ?_, ?_⟩, by decide⟩ <;>
+    simp [Tree.Forall, Tree.Forall.forallList, OrderedKids, KindsOk, UniqueKids, attrNames, nsPrefixes,
+      Value.isLeafKind, Value.isElement, Value.isDocument, Value.isNormal, Value.category, Tree.value]
 
 end Repair
 
